@@ -199,6 +199,8 @@ pub struct PartCfg {
     pub limit: Duration,
     pub hang_is_violation: bool,
     pub max_shrink_iters: u32,
+    /// an enumerated part that walks only a slice of its space must not be reported as exhaustive
+    pub sampled_enumeration: bool,
 }
 
 impl PartCfg {
@@ -211,6 +213,7 @@ impl PartCfg {
             limit: Duration::from_secs(120),
             hang_is_violation: false,
             max_shrink_iters: 600,
+            sampled_enumeration: false,
         }
     }
     pub fn workers(mut self, w: usize) -> Self {
@@ -223,6 +226,10 @@ impl PartCfg {
     }
     pub fn hang_violates(mut self) -> Self {
         self.hang_is_violation = true;
+        self
+    }
+    pub fn slice(mut self) -> Self {
+        self.sampled_enumeration = true;
         self
     }
     pub fn shrink_iters(mut self, n: u32) -> Self {
@@ -575,7 +582,7 @@ impl Engine {
         if let Some((_, case, msg)) = best {
             self.violation(cfg.name, &case, &msg);
         }
-        self.push_part(cfg.name, &cfg.rule, stats, complete, false, t0);
+        self.push_part(cfg.name, &cfg.rule, stats, complete && !cfg.sampled_enumeration, false, t0);
     }
 
     /// custom part: the closure owns the loop (used for cheap exhaustive boxes where per-case
